@@ -34,6 +34,7 @@ ASSUMPTIONS = [
 OUTSIDE = ["histories longer than K", "real process pools"]
 
 NETWORKS = [
+    (("aab", "abc", "cd", "d"), "", "diag-shared"),
     (("ab", "bc", "cd", "da"), "", "ring4"),
     (("ab", "bc", "cd", "de"), "ae", "chain4-out2"),
     (("abx", "bcx", "cdx"), "ax", "hyper-batch"),
@@ -54,7 +55,7 @@ def bounds(tier):
 
 
 def items(tier, seed):
-    nets = NETWORKS[:6] if tier == "quick" else NETWORKS
+    nets = NETWORKS[:7] if tier == "quick" else NETWORKS
     its = []
     for ni, (inputs, output, name) in enumerate(nets):
         for init in ("greedy", "caterpillar"):
@@ -168,9 +169,11 @@ def run_H(item, rec):
 
     menu = [m for m in history.op_menu(tier, max_size) if m[0] != "q_contract"]
     K = 2 if tier == "quick" else 3
+    from checks.c02 import initial_states
+
     n_states = history.explore_histories(
-        rec, [(t0, [])], menu, K, check, env,
-        max_states_per_level=(8 if tier == "quick" else 80),
+        rec, initial_states(t0, labels, size), menu, K, check, env,
+        max_states_per_level=int(__import__("os").environ.get("VERIF_HIST_STATES", 8 if tier == "quick" else 80)),
         max_paths_per_op=(25 if tier == "quick" else 400),
         deadline_per_op=(4.0 if tier == "quick" else 25.0),
     )
